@@ -1,12 +1,15 @@
 (* C16 -- datagram server: per-client FIFO, one active handler, nothing dropped.
    Statements over ALL label sequences of the LTS coq/Conc/DgramServer.v (arrivals from any addresses interleaved with
-   any handler behaviour: suspend, yield with/without timeout, return, raise, timeouts firing, any scheduling). *)
+   any handler behaviour: suspend, yield with/without timeout, return, raise, end with the cancellation exception,
+   timeouts firing, any scheduling).  [Forall ok_label ls] excludes only the label [GCancel a false] = "the generator
+   ended with the cancelled exception and the task-done hook did NOT restart" -- the behaviour of the intermediate fix
+   7007369, refuted at the end of this file; for the code whose hook always restarts no trace contains that label. *)
 From EN Require Import Lib.Bytes Conc.DgramServer Proofs.C16_proofs.
 
 (* _ClientData.state is None only when its queue is empty -- at every state, hence at every scheduling point *)
 Theorem state_none_implies_queue_empty :
   forall (ls : list label) (s : state) (a : addr),
-    steps state0 ls = Some s -> st (cl s a) = TNone -> queue (cl s a) = [].
+    Forall ok_label ls -> steps state0 ls = Some s -> st (cl s a) = TNone -> queue (cl s a) = [].
 Proof. exact state_none_implies_queue_empty_pf. Qed.
 Print Assumptions state_none_implies_queue_empty.
 
@@ -14,7 +17,7 @@ Print Assumptions state_none_implies_queue_empty.
    handle_inconsistent_state_error and pop_datagram_no_wait never finds an empty queue (err stays false) *)
 Theorem at_most_one_active :
   forall (ls : list label) (s : state) (a : addr),
-    steps state0 ls = Some s ->
+    Forall ok_label ls -> steps state0 ls = Some s ->
     err s = false /\ nactive (cl s a) <= 1 /\
     (nactive (cl s a) = 1 <-> st (cl s a) = TRunning) /\ (pc (cl s a) <> PIdle <-> st (cl s a) = TRunning).
 Proof. exact at_most_one_active_pf. Qed.
@@ -23,7 +26,7 @@ Print Assumptions at_most_one_active.
 (* a queued datagram always has a task responsible for it (pending or running) *)
 Theorem eventually_handled :
   forall (ls : list label) (s : state) (a : addr),
-    steps state0 ls = Some s -> queue (cl s a) <> [] ->
+    Forall ok_label ls -> steps state0 ls = Some s -> queue (cl s a) <> [] ->
     st (cl s a) = TPending \/ st (cl s a) = TRunning.
 Proof. exact eventually_handled_pf. Qed.
 Print Assumptions eventually_handled.
@@ -35,7 +38,7 @@ Print Assumptions eventually_handled.
    not run yet.  Nothing is lost, duplicated or reordered. *)
 Theorem fifo_exactly_once :
   forall (ls : list label) (s : state) (o : list obs) (a : addr),
-    trace state0 ls = Some (s, o) ->
+    Forall ok_label ls -> trace state0 ls = Some (s, o) ->
     received a o = map fst (filter snd (hist (cl s a))) /\
     map fst (hist (cl s a)) ++ held (cl s a) ++ queue (cl s a) ++ proj a (spawned s) = arrivals a ls.
 Proof. exact fifo_exactly_once_pf. Qed.
@@ -58,7 +61,7 @@ Print Assumptions clients_independent.
    progress, return or even be resumed.  (Only a handler of a itself that never yields could starve a.) *)
 Theorem not_starved :
   forall (ls : list label) (s : state) (a : addr),
-    steps state0 ls = Some s ->
+    Forall ok_label ls -> steps state0 ls = Some s ->
     held (cl s a) ++ queue (cl s a) ++ proj a (spawned s) <> [] ->
     exists (ls' : list label) (s' : state),
       steps s ls' = Some s' /\ Forall (polite a) ls' /\
@@ -66,13 +69,25 @@ Theorem not_starved :
 Proof. exact not_starved_pf. Qed.
 Print Assumptions not_starved.
 
+(* the excluded behaviour really breaks the property: if the hook does not restart after a generator that ended with
+   the cancelled exception (GCancel a false), a datagram stays queued with state None and no task -- and no polite
+   continuation can ever consume it *)
+Theorem state_none_implies_queue_empty_refuted_without_restart :
+  exists (ls : list label) (s : state) (a : addr),
+    steps state0 ls = Some s /\ st (cl s a) = TNone /\ queue (cl s a) <> [] /\ spawned s = [] /\ cur s = None.
+Proof.
+  exists [Arrive 0 [1%N]; HStart false; GYield 0 None; GSuspend 0; Arrive 0 [2%N]; HStart false; GResume 0; GCancel 0 false].
+  eexists. exists 0. vm_compute. repeat split. discriminate.
+Qed.
+Print Assumptions state_none_implies_queue_empty_refuted_without_restart.
+
 (* non-vacuity: a run with a suspension, queueing, a return before the first yield (discard), a restart by the
    task-done hook, and a timeout is a trace of the model *)
 Example c16_witness :
   exists s o, trace state0
     [Arrive 0 [1%N]; HStart false; GSuspend 0; Arrive 0 [2%N]; Arrive 1 [9%N]; Arrive 0 [3%N]; HStart false; HStart false;
      GYield 1 None; GYield 1 (Some 5%Z); HStart true; Timeout 1; GSuspend 1; HResume 0;
-     GResume 0; GReturn 0; TaskStart 0; GYield 0 None; GYield 0 None; PopWake 0; GRaise 0] = Some (s, o)
+     GResume 0; GReturn 0; TaskStart 0; GYield 0 None; GYield 0 None; PopWake 0; GCancel 0 true] = Some (s, o)
     /\ received 0 o = [[2%N]; [3%N]] /\ discarded (cl s 0) = [[1%N]] /\ gens (cl s 0) = 2 /\ st (cl s 0) = TNone
     /\ received 1 o = [[9%N]] /\ st (cl s 1) = TRunning.
 Proof. eexists. eexists. vm_compute. repeat split. Qed.
